@@ -75,6 +75,7 @@ def _build_world(prop, variant=None):
                 pass
             w.contracts.setdefault(it.qualname, it)
     w.findings, _, _ = load_findings(prop)
+    w.variant = variant
     return mod, w, items
 
 
